@@ -1,6 +1,7 @@
 /- Line-protocol driver for C07 (composite fonts).  Model ops answer what the code does, spec ops
 what the property demands; see tools/harness/props/c07.py for the wire formats. -/
 import PdfVerif.Spec.CIDFont
+import PdfVerif.Model.TrueTypeCmap
 
 open PdfVerif PdfVerif.CIDFont PdfVerif.CIDFontSpec
 
@@ -235,6 +236,24 @@ def step (st : DState) (line : String) : DState × String :=
     (st, match parseEntries parseW2Entry ws with
       | some es => showW2Map ((specWidth2Pairs es).reverse.map
           (fun e => ((e.1 : Rat), (WVal.num e.2.1, WVal.num e.2.2.1, WVal.num e.2.2.2))))
+      | none => "bad-op")
+  | ["umapsel", tu, ord, coding, enc, ttf, vert, shipped] =>
+    let str (h : String) : Option String := (bytesOfHex h).map (fun b => String.ofList (b.map (fun c => Char.ofNat c.toNat)))
+    (st, match (if tu == "s" then some ToUni.stream else if tu == "-" then some ToUni.absent
+                else (str ((tu.drop 2).toString)).map ToUni.name), str ord, str coding, str enc with
+      | some tu, some ord, some coding, some enc =>
+        match selectUnicodeMap tu ord coding enc (ttf == "1") (vert == "1") (shipped == "1") with
+        | .file => "S file"
+        | .identity => "S identity"
+        | .ttf => "S ttf"
+        | .none => "S none"
+        | .collection c v => "S coll:" ++ c ++ ":" ++ (if v then "V" else "H")
+      | _, _, _, _ => "bad-op")
+  | ["ttf", h] =>
+    (st, match bytesOfHex h with
+      | some b => match TrueType.createUnicodeMap b with
+        | .ok m => showUMap m
+        | .error e => "E " ++ e.name
       | none => "bad-op")
   | "gw" :: dw :: cid :: ws =>
     (st, match (if dw == "-" then some none else (parseNum dw).map (fun n => some n.1)), cid.toNat?, parseWElems ws with
